@@ -76,6 +76,7 @@ def run_case(case, keep_world=False, monitors=None):
             from . import monitors as monmod
             mons.append(monmod.make(mname, w, case))
         w.monitors = [m for m in mons if hasattr(m, 'after_step') or hasattr(m, 'on_clock_jump')]
+        w.monitors_all = mons
         for mon in mons:
             if hasattr(mon, 'attach'):
                 mon.attach(w, case)
